@@ -70,12 +70,14 @@ func init() {
 		tr := baseCfg("Scan_Trees_ties", "Trees")
 		tr.BlobSizes = "Seq_3_3"
 		tr.NTree, tr.MaxEnt = 2, 2
+		dup := baseCfg("Scan_CommitsDup", "CommitsDup")
+		dup.NCommit, dup.CSizes = 3, "CSizes_ties"
 		p := scanProfile{
-			Check: []scanCfg{cm, tr}, Export: []scanCfg{cm, tr}, MaxAPI: 6000, MaxCLIFromTLC: 50,
+			Check: []scanCfg{cm, tr, dup}, Export: []scanCfg{cm, tr, dup}, MaxAPI: 6000, MaxCLIFromTLC: 50,
 			NRandom: 50, MaxTraces: 50,
 			Gen:   genParams{NBlob: 10, NTree: 10, NCommit: 10, NTag: 3, MaxEnt: 5, MaxBlob: 40, Merges: true, RootKinds: "refs"},
 			Fails: scanFails["C02"],
-			Rule:  "TLC families Commits (all DAGs, tied sizes) and Trees (tied blob sizes) x all orders, so the maximal object is first/middle/last and tied; random repositories with few distinct sizes; distinct = distinct (graph, order) / (graph, arguments)",
+			Rule:  "TLC families Commits (all DAGs, tied sizes; also with repeated parent headers) and Trees (tied blob sizes) x all orders, so the maximal object is first/middle/last and tied; random repositories with few distinct sizes; distinct = distinct (graph, order) / (graph, arguments)",
 		}
 		if !quick(c) {
 			cm4 := cm
